@@ -329,7 +329,9 @@ def gen_op(rng, k, sh, kind):
             return [('save_session', sid, {'user': rng.choice(['ann', 'bob']), 'k': rng.randrange(9)}, ns)]
         if r < 0.6:
             return [('get_session', sid, ns)]
-        if r < 0.75:
+        if r < 0.68:
+            return [('session_nested', sid, ns, rng.choice(['user', 'a']), rng.randrange(5), rng.choice(['cart', 'b']), [rng.randrange(5)])]
+        if r < 0.78:
             return [('session_replace', sid, ns, rng.choice([{}, {'k': rng.randrange(9)}, {'user': 'zed'}]))]
         return [('session_set', sid, ns, rng.choice(['user', 'cart', 'k']), rng.choice([1, 'v', [1, 2]]))]
     if kind == 'junk':
